@@ -21,7 +21,9 @@ def WStep (s : Shared) (t : Thread) (tid : Tid) (alt : Bool) : Prop :=
     wlD s' = (if consWakePc t.pc = true then (wlD s).erase tid
               else if consWakePc t'.pc = true then wlD s ++ [tid] else wlD s) ∧
     wlE s' = (if prodWakePc t.pc = true then (wlE s).erase tid
-              else if prodWakePc t'.pc = true then wlE s ++ [tid] else wlE s)
+              else if prodWakePc t'.pc = true then wlE s ++ [tid] else wlE s) ∧
+    (consWakePc t.pc = true → consWakePc t'.pc = false) ∧
+    (prodWakePc t.pc = true → prodWakePc t'.pc = false)
 
 set_option hygiene false in
 macro "w_group" : tactic => `(tactic| (
